@@ -50,6 +50,11 @@ func monC05(w *World) {
 			}
 		}
 		gap = hi - lo
+		// views still scripted to leaders outside the quorum must first pass (by timeout)
+		if rest := hotstuff.View(len(p.PrefixScript)); rest > lo {
+			gap += rest - lo
+			w.probe("c05-prefix-leaders-after-heal")
+		}
 		// generous and stated, not tuned: resynchronise (one period per view of spread, plus slack), then
 		// a small multiple of the commit-chain length
 		deadline = w.now() + time.Duration(int(gap)+12+4*L)*tview
